@@ -629,6 +629,52 @@ func execSM(p smProg, c *hx.Case) error {
 	sm := ds.NewSortedMap[string, int]()
 	model := map[string]int{}
 	repl, dels := 0, 0
+	reads, writesInARow, maxWritesInARow := 0, 0, 0
+	// what: 0 Keys, 1 Values+Size, 2 All, 3 Get/Has of every key, 4 everything
+	observe := func(step int, what int) error {
+		keys := hx.SortedKeys(model)
+		if what == 0 || what == 4 {
+			if got := sm.Keys(); !slices.Equal(got, keys) && !(len(got) == 0 && len(keys) == 0) {
+				return hx.Errf("step %d Keys()=%q want %q", step, got, keys)
+			}
+		}
+		if what == 1 || what == 4 {
+			vals := sm.Values()
+			if len(vals) != len(keys) || sm.Size() != len(keys) {
+				return hx.Errf("step %d Size()=%d len(Values())=%d want %d", step, sm.Size(), len(vals), len(keys))
+			}
+			for i, k := range keys {
+				if vals[i] != model[k] {
+					return hx.Errf("step %d Values()[%d]=%d, want %d (key %q)", step, i, vals[i], model[k], k)
+				}
+			}
+		}
+		if what == 2 || what == 4 {
+			i := 0
+			for k, v := range sm.All() {
+				if i >= len(keys) || k != keys[i] || v != model[k] {
+					return hx.Errf("step %d All() item %d = (%q,%d), want (%q,%d)", step, i, k, v, keys[min(i, len(keys)-1)], model[keys[min(i, len(keys)-1)]])
+				}
+				i++
+			}
+			if i != len(keys) {
+				return hx.Errf("step %d All() yielded %d items, want %d", step, i, len(keys))
+			}
+		}
+		if what == 3 || what == 4 {
+			if sm.Size() != len(keys) {
+				return hx.Errf("step %d Size()=%d want %d", step, sm.Size(), len(keys))
+			}
+			for _, k := range hx.AdversarialKeys[:12] {
+				v, ok := sm.Get(string(k))
+				mv, had := model[string(k)]
+				if ok != had || v != mv || sm.Has(string(k)) != had {
+					return hx.Errf("step %d Get(%q)=%d,%v want %d,%v", step, k, v, ok, mv, had)
+				}
+			}
+		}
+		return nil
+	}
 	for step, op := range p.Ops {
 		switch op.Kind {
 		case "set":
@@ -650,40 +696,34 @@ func execSM(p smProg, c *hx.Case) error {
 			}
 			delete(model, op.Key)
 		}
-		keys := hx.SortedKeys(model)
-		if got := sm.Keys(); !slices.Equal(got, keys) && !(len(got) == 0 && len(keys) == 0) {
-			return hx.Errf("step %d Keys()=%q want %q", step, got, keys)
-		}
-		vals := sm.Values()
-		if len(vals) != len(keys) || sm.Size() != len(keys) {
-			return hx.Errf("step %d Size()=%d len(Values())=%d want %d", step, sm.Size(), len(vals), len(keys))
-		}
-		i := 0
-		for k, v := range sm.All() {
-			if i >= len(keys) || k != keys[i] || v != model[k] || vals[i] != v {
-				return hx.Errf("step %d All() item %d = (%q,%d), want (%q,%d)", step, i, k, v, keys[min(i, len(keys)-1)], model[k])
+		// Observations are ops of their own (and one full observation closes the
+		// history): reading after every write would hide whatever a write leaves
+		// behind for the next write, e.g. a lazily sorted list.
+		if op.Kind == "read" {
+			if err := observe(step, op.Val%5); err != nil {
+				return err
 			}
-			i++
+			reads++
+		} else {
+			writesInARow++
+			maxWritesInARow = max(maxWritesInARow, writesInARow)
+			continue
 		}
-		if i != len(keys) {
-			return hx.Errf("step %d All() yielded %d items, want %d", step, i, len(keys))
-		}
-		for _, k := range hx.AdversarialKeys[:12] {
-			v, ok := sm.Get(string(k))
-			mv, had := model[string(k)]
-			if ok != had || v != mv || sm.Has(string(k)) != had {
-				return hx.Errf("step %d Get(%q)=%d,%v want %d,%v", step, k, v, ok, mv, had)
-			}
-		}
+		writesInARow = 0
 	}
-	if repl > 0 && dels > 0 {
+	if err := observe(len(p.Ops), 4); err != nil {
+		return err
+	}
+	c.LabelIf(maxWritesInARow >= 3, ">=3 writes without a read between them")
+	c.LabelIf(reads > 0, "reads inside the history")
+	if repl > 0 && dels > 0 && maxWritesInARow >= 2 {
 		c.NonTrivial()
 	}
 	return nil
 }
 
 func TestPropSortedMap(t *testing.T) {
-	hx.Run(t, hx.Spec{Prop: "C19", Rule: "Set/Delete/Get/Has/Keys/Values/All/Size over 12 string keys vs map+sort after every op; non-trivial = >=1 replace and >=1 effective delete"}, genSM, execSM)
+	hx.Run(t, hx.Spec{Prop: "C19", Rule: "Set/Delete histories over 12 string keys with observations as ops of their own (one of Keys | Values+Size | All | Get/Has of every key | all of them, so that writes follow writes without a read between them) and a full observation at the end, vs map+sort; the results of Set and Delete are compared at every op; non-trivial = >=1 replace, >=1 effective delete and >=2 writes in a row"}, genSM, execSM)
 }
 
 // ---------------------------------------------------------------- merges
